@@ -34,7 +34,10 @@ THOROUGH_EXTRA = [
 
 
 def for_tier(tier: str):
-    return SESSIONS + THOROUGH_EXTRA if tier == "thorough" else SESSIONS
+    if tier != "thorough":
+        return SESSIONS
+    names = {c["name"] for c in SESSIONS}
+    return SESSIONS + [c for c in THOROUGH_EXTRA if c["name"] not in names]
 
 
 SIMS = ("_step_simulator", "_skip_simulator")
